@@ -480,6 +480,66 @@ static void explore_body(Rng& r, bool deep) {
   if (want_sample()) sample("{\"config\":" + jstr(G().cur_desc) + ",\"final_n\":" + std::to_string(live[0].m.n) + ",\"final_c\":" + str(live[0].sk->get_c()) + "}");
 }
 
+// ---------------------------------------------------------------- doubling merges: n crosses 2^32
+// A small sketch is merged with copies of itself (lvalue copy, rvalue copy, self-merge through a reference)
+// 33..36 times: n and the cumulative weight must double exactly each time (n in 64 bits).
+static void doubling_case(Rng& r) {
+  g_fam = "sketch"; g_mfam = "merge";
+  const uint32_t k = pick_k(r);
+  const uint64_t n0 = 3 + r.below(48);
+  const bool dyadic = r.coin();
+  const int rounds = 33 + static_cast<int>(r.below(4));
+  describe("doubling k=" + std::to_string(k) + " n0=" + std::to_string(n0) + " dyadic=" + std::to_string(dyadic) + " rounds=" + std::to_string(rounds));
+  std::unique_ptr<EB> s(new EB(k));
+  long double cum = 0; double wmax = 0;
+  ++g_stamp;
+  for (uint64_t i = 0; i < n0; ++i) {
+    const double w = dyadic ? static_cast<double>(1 + r.below(64)) / 16.0 : 0.1 + 10 * r.unit();
+    const uint64_t id = new_id(w); owner_gen[id] = g_stamp;
+    s->update(id, w); cum += w; wmax = std::max(wmax, w);
+  }
+  uint64_t n = n0;
+  auto check = [&](const EB& e, const std::string& when) {
+    auto ctx = [&]() { return when + " k=" + std::to_string(k) + " n0=" + std::to_string(n0) + " want_n=" + std::to_string(n) + " want_cum=" + str(static_cast<double>(cum)); };
+    VF_CHECK(e.get_n() == n, "merge|doubling|n-not-doubled", ctx() + " got=" + std::to_string(e.get_n()));
+    if (dyadic) VF_CHECK(static_cast<long double>(e.get_cumulative_weight()) == cum, "merge|doubling|cumulative-weight-not-doubled-exactly", ctx() + " got=" + str(e.get_cumulative_weight()));
+    else VF_CHECK(close_rel(e.get_cumulative_weight(), cum, 1e-12), "merge|doubling|cumulative-weight-not-doubled", ctx() + " got=" + str(e.get_cumulative_weight()));
+    VF_CHECK(e.get_k() == k, "merge|doubling|k-changed", ctx() + " got=" + std::to_string(e.get_k()));
+    const double c = e.get_c();
+    const double want = std::min<double>(k, static_cast<double>(cum / wmax));
+    VF_CHECK(std::fabs(c - want) <= 1e-9 * want, "merge|doubling|c-not-min-k-cumwt-over-wmax", ctx() + " c=" + str(c) + " want=" + str(want));
+    for (int pth = 0; pth < 2; ++pth) {
+      std::vector<uint64_t> got;
+      if (pth == 0) { auto res = e.get_result(); got.assign(res.begin(), res.end()); }
+      else for (auto it = e.begin(); it != e.end(); ++it) { got.push_back(*it); if (got.size() > static_cast<size_t>(k) + 8) break; }
+      const double sz = static_cast<double>(got.size());
+      VF_CHECK(sz == std::floor(c) || sz == std::ceil(c), std::string("merge|doubling|") + (pth ? "iteration" : "get_result") + "|size-not-floor-or-ceil-of-c", ctx() + " size=" + std::to_string(got.size()) + " c=" + str(c));
+      for (uint64_t id : got) if (id >= W.size() || owner_gen[id] != g_stamp) { checked(); fail(std::string("merge|doubling|") + (pth ? "iteration" : "get_result") + "|item-not-from-input", ctx() + " id=" + std::to_string(id)); break; }
+    }
+  };
+  check(*s, "after build");
+  try {
+    for (int j = 1; j <= rounds; ++j) {
+      const uint64_t mode = r.below(3);
+      if (mode == 0) { EB copy(*s); s->merge(copy); count("doubling_merge_lvalue_copy"); }
+      else if (mode == 1) { EB copy(*s); s->merge(std::move(copy)); count("doubling_merge_rvalue_copy"); }
+      else { const EB& ref = *s; s->merge(ref); count("doubling_merge_self"); }
+      n *= 2; cum *= 2;
+      check(*s, "after doubling #" + std::to_string(j));
+      if (n >= (1ULL << 32)) count("doubling_merges_n_ge_2p32");
+    }
+    // the huge-n sketch through an image, then a few more updates (64-bit counting goes on)
+    { std::unique_ptr<EB> t(new EB(round_trip(*s, r))); s = std::move(t); check(*s, "after round trip"); count("doubling_round_trip_n_ge_2p32"); }
+    const uint64_t extra = 1 + r.below(20);
+    for (uint64_t i = 0; i < extra; ++i) { const double w = dyadic ? static_cast<double>(1 + r.below(64)) / 16.0 : 0.1 + 10 * r.unit(); const uint64_t id = new_id(w); owner_gen[id] = g_stamp; s->update(id, w); ++n; cum += w; wmax = std::max(wmax, w); }
+    if (dyadic) { VF_CHECK(s->get_n() == n, "merge|doubling|n-after-further-updates", "want=" + std::to_string(n) + " got=" + std::to_string(s->get_n())); }
+    else check(*s, "after further updates");
+    if (dyadic) VF_CHECK(close_rel(s->get_cumulative_weight(), cum, 1e-12), "merge|doubling|cumulative-weight-after-further-updates", "got=" + str(s->get_cumulative_weight()));
+  } catch (const std::exception& e) { checked(); fail("merge|doubling|throws", G().cur_desc + " what=" + e.what()); return; }
+  count("doubling_cases");
+  sig(mix64(0xd0b1, mix64(k, n0)));
+}
+
 // ---------------------------------------------------------------- inclusion-probability cells
 struct Cell { int n; int k; int kind; int merge; int k2; int table; };   // table: 0 = weights from the generator, else explicit list below
 static const double TABLES[4][8] = {
@@ -588,7 +648,7 @@ void run_case(uint64_t idx, Rng& r) {
   const uint64_t s = r.next();
   random_utils::rand.seed(s);
   random_utils::random_bit.seed(static_cast<uint32_t>(s));
-  explore_case(r);
+  if (r.chance(0.006)) doubling_case(r); else explore_case(r);
 }
 
 } // namespace vf
